@@ -428,27 +428,25 @@ package main
 //@ func traverseMapPath
 //@   safety C07
 //@   props C05 C14 C01
-//@   assigns Arr:Str
+//@   assigns nothing
+//@   allocs Arr:Str
 //@   requires table: operatorMap != nil && isTable(operatorMap)
 //@   loop 1 invariant table-walk: tableVal(current)
 //@   ensures table-value: implies(result1, tableVal(result0) && result0 != nil)
 //@   ensures nil-when-absent: implies(!result1, result0 == nil)
-//@   ensures key-path-frame: unchangedBelowExcept("Arr:Str", base(path))
 //@   ensures the-lookup-leaves-the-key-path-as-it-is {C05,C14,C01}: unchangedBelow("Arr:Str")
 //@   loop 1 invariant table-entry: (_idx == 0 && current == VMap(operatorMap)) || (_idx >= 1 && TE(path[_idx-1], current))
-//@   ensures range-frame: unchangedOutside("Arr:Str", base(path), off(path), off(path) + len(path) - 1)
 //@   ensures table-entry {C01,C02,C03,C04,C05,C12,C14,C15,C19}: implies(result1 && isOp(result0) && result0 != VOp(5), (len(path) >= 1 && TE(old(path[len(path)-1]), result0)) || MarkerTE(result0))
 
 //@ func getOp
 //@   safety C07
 //@   props C05 C14 C01
-//@   assigns Arr:Str
+//@   assigns nothing
+//@   allocs Arr:Str
 //@   requires nonempty-path: len(keyPath) >= 1
 //@   ensures table-value: implies(result1, tableVal(result0))
 //@   ensures nil-when-absent: implies(!result1, result0 == nil)
-//@   ensures key-path-frame: unchangedBelowExcept("Arr:Str", base(keyPath))
 //@   ensures the-lookup-leaves-the-key-path-as-it-is {C05,C14,C01}: unchangedBelow("Arr:Str")
-//@   ensures range-frame: unchangedOutside("Arr:Str", base(keyPath), off(keyPath), off(keyPath) + len(keyPath) - 1)
 //@   ensures table-entry {C01,C02,C03,C04,C05,C12,C14,C15,C19}: implies(result1 && isOp(result0) && result0 != VOp(5), TE(old(keyPath[len(keyPath)-1]), result0) || MarkerTE(result0))
 //@   trusted_ensures: result0 == opAtVal(old(selems(keyPath)), off(keyPath), len(keyPath), isSearchStage) && result1 == opAtOk(old(selems(keyPath)), off(keyPath), len(keyPath), isSearchStage)
 
@@ -475,8 +473,8 @@ package main
 //@ func redactScalarValue
 //@   safety C07
 //@   props C05
-//@   assigns Arr:Str, GoMaps
-//@   allocs Arr:Int
+//@   assigns GoMaps
+//@   allocs Arr:Int, Arr:Str
 //@   requires nonempty-path: len(keyPath) >= 1
 //@   local pk := keyPath[len(keyPath)-1]
 //@   local gpk := ite(len(keyPath) > 1, keyPath[len(keyPath)-2], "")
@@ -485,7 +483,7 @@ package main
 //@   local enc := shouldEncrypt && encryptionKey != nil
 //@   local P := phString(redactedString, pk, gpk, emailShaped(emailRegex, strOf(v)))
 //@   local CT := b64enc(daeadEnc(mkbytes(elems(encryptionKey), off(encryptionKey), len(encryptionKey)), sbytes(strOf(v)), noBytes))
-//@   ensures key-path-frame: unchangedBelowExcept("Arr:Str", base(keyPath)) && unchangedOutside("Arr:Str", base(keyPath), off(keyPath), off(keyPath) + len(keyPath) - 1)
+//@   ensures key-path-frame: unchangedBelow("Arr:Str")
 //@   ensures string-class-placeholder {C05,C02,C19,C10}: implies(isStr(v), result == v || result == VStr(P) || (enc && result == VStr(CT)))
 //@   ensures string-kept-only-where-allowed {C01,C02,C03,C04,C05,C12,C14,C15,C19}: implies(isStr(v) && result == v, (sel && !named) || polExempt(pk) || (pk == "subType" && gpk == "$binary") || v == VStr(P) || (enc && v == VStr(CT)))
 //@   ensures number-zero-or-kept {C05,C03,C04}: implies(isNum(v), result == v || (redactNumbers && result == VF64(f64_0)))
@@ -635,6 +633,9 @@ package main
 //@   at_call redactScalarValue#1 a-field-name-operand-that-is-no-string-is-classified-under-its-key {C05}: len(arg_keyPath) == 1 && arg_keyPath[0] == k && !isStr(arg_v)
 //@   at_call redactScalarValue#2 the-sub-leaf-is-classified-under-its-parent-key {C05,C01,C19}: len(arg_keyPath) >= 2 && arg_keyPath[len(arg_keyPath)-1] == subK
 //@   at_call redactScalarValue#3 the-sub-leaf-is-classified-under-its-parent-key {C05,C01,C19}: len(arg_keyPath) >= 2 && arg_keyPath[len(arg_keyPath)-1] == subK
+//@   at_call redactScalarValue@keyPath=newKeyPath the-key-path-carries-every-name-down-to-the-value {C14}: matchAny(redactedFieldsRegexp, selems(arg_keyPath), off(arg_keyPath), len(arg_keyPath)) == (matchAny(redactedFieldsRegexp, selems(keyPath), off(keyPath), len(keyPath)) || reMatch(redactedFieldsRegexp, k))
+//@   at_call redactPipelineStage@stage=vTyped the-key-path-carries-every-name-down-to-the-value {C14}: len(arg_keyPath) == 0 || (matchAny(redactedFieldsRegexp, selems(arg_keyPath), off(arg_keyPath), len(arg_keyPath)) == (matchAny(redactedFieldsRegexp, selems(keyPath), off(keyPath), len(keyPath)) || reMatch(redactedFieldsRegexp, k)))
+//@   at_call redactArrayValues@arr=vTyped the-key-path-carries-every-name-down-to-the-value {C14}: matchAny(redactedFieldsRegexp, selems(arg_keyPath), off(arg_keyPath), len(arg_keyPath)) == (matchAny(redactedFieldsRegexp, selems(keyPath), off(keyPath), len(keyPath)) || reMatch(redactedFieldsRegexp, k))
 //@   ensures result-kind {C03}: (isMap(stage) && isMap(result) && mapOf(result) > old(heapTop) && mapOf(result) <= heapTop && !isTable(mapOf(result))) || (isArr(stage) && result == stage) || (!isMap(stage) && !isArr(stage) && result == stage)
 //@   defines stage-relation {C01,C02,C03,C04,C05,C12,C14,C15,C19}: RelS(c, redactFieldNames, inSearchStage, stage, result) := (isMap(stage) && isMap(result) && PRel(c, redactFieldNames, inSearchStage, A, om(mapOf(result)))) || (isArr(stage) && result == stage && RelA(c, redactFieldNames, inSearchStage, ite(len(keyPath) > 0, keyPath[len(keyPath)-1], ""), arrOf(stage))) || (!isMap(stage) && !isArr(stage) && result == stage)
 //@   loop 1 each exempt-parameters-are-kept-as-they-are {C04}: implies(opMeta == VOp(1) && !isArr(v), omIdx(om(newMap), redactedKey) >= 0 && omVal(om(newMap), omIdx(om(newMap), redactedKey)) == v)
